@@ -2,24 +2,27 @@ S = "ural/classes/suffix_trie.py:SuffixTrie."
 SPEC = {
     "id": "C08",
     "level": "other",
-    "sidecars": ["suffix_trie"],
-    "functions": [S + m for m in ("__walk", "split", "extract_suffix", "extract_domain_name", "has_valid_domain_name")],
+    "sidecars": ["trie_dict", "suffix_trie"],
+    "functions": [S + m for m in ("__init__", "add", "__walk", "split", "extract_suffix", "extract_domain_name", "has_valid_domain_name")],
     "bounded": ["bcheck.c08"],
     "explanation": (
-        "Deductive (all inputs): SuffixTrie.__walk is verified for the SHAPE of its result (at least one label, offset == -1 or "
-        "1 <= offset < number of labels, match not None, no IndexError/AttributeError; only ValueError of urlsplit may escape); split, "
-        "extract_suffix, extract_domain_name and has_valid_domain_name are verified against __walk's contract: the two parts of split "
-        "re-join to the host ('.'.join of its labels), the suffix is the last psl_suffix_length labels, the domain name is the suffix "
-        "plus exactly one more label or the host itself for a bare suffix (string facts about str.join are assumed axioms). "
-        "NOT deductive: that __walk's suffix length IS the publicsuffix.org prevailing-rule length (assumed_ensures), and SuffixTrie.add. "
-        "These are decided bounded against an independent set-based implementation of the algorithm: every bundled rule as host with "
-        "extra labels / proper suffixes / instantiated wildcard, and all small synthetic rule sets on fresh tries."),
+        "Deductive (all rule sets, all hosts, unbounded; pyvc): the SuffixTrie is verified against an abstract RULE VIEW (ghost Rn = normal / wildcard "
+        "rules as reversed label keys, Rx = exception labels per parent key) with a representation invariant SInv (ghost path / at / N as for TrieDict; "
+        "leaf <=> rule, exception set <=> Rx, wildcard nodes have neither children nor exceptions, the root is no rule). __init__ establishes SInv with an "
+        "empty view; add(s) changes the view by EXACTLY the rule denoted by s (an exception rule is recorded under its parent and does not make the parent "
+        "a rule; a second exception under the same parent is kept) and preserves SInv; __walk returns a suffix length that IS the publicsuffix.org answer over "
+        "the view: a matching exception rule prevails and yields its parent, otherwise the LONGEST matching rule, where a wildcard rule matches exactly one "
+        "extra label whatever else is stored under that label; None iff no rule matches (loop invariant over the right-to-left label sequence with ghost "
+        "witnesses; exits justified by prefix closure of the trie); split / extract_suffix / extract_domain_name / has_valid_domain_name are verified against "
+        "__walk: parts re-join, suffix = last n labels, domain = suffix plus exactly one label or the host itself for a bare suffix. "
+        "Bounded (bcheck/c08.py, independent set-based PSL implementation): the same on the REAL bundled list (every rule as host with extra labels, proper "
+        "suffixes, instantiated wildcards, in URL forms / upper case / trailing dot), all small synthetic rule sets on fresh tries, the TLD predicates, and the "
+        "host parsing glue (urlsplit, lower(), rstrip('.'), special hosts) that the deductive part assumes."),
     "assumptions": [
-        "assumed_ensures of SuffixTrie.__walk: labels == lower-cased dot-stripped hostname split on '.', suffix length == PSL prevailing rule (bounded-checked only)",
-        "str.split returns >= 1 piece; str.join laws join(xs[:n]) + sep + join(xs[n:]) == join(xs) for 0 < n < len, join(xs[n:]) == xs[n] + sep + join(xs[n+1:])",
-        "wildcard labels occur only as the leftmost label of a rule (true of the bundled list)",
-        "the property statement's 'no rule => no valid suffix' is followed (publicsuffix.org's implicit '*' default rule is NOT applied)",
-        "when several exception rules match a host (never in the bundled list) any of them is accepted",
+        "add's precondition: the exception mark and the wildcard label occur only on the leftmost label of a rule, an exception rule has >= 2 labels (true of the bundled list; checked there by the bounded part)",
+        "host_labels / psl_suffix_length are NAMES (assumed_ensures) for what __walk computes, used to state the extractors' contracts",
+        "str.split returns >= 1 piece; str.join laws; 'no rule => no valid suffix' as the statement says (publicsuffix.org's implicit '*' rule is not applied)",
+        "when several exception rules match a host (never in the bundled list) the one met first on the path is accepted",
     ],
-    "trusted_base": ["pyvc VC generator and z3 / cvc5", "independent reference PSL implementation in bcheck/c08.py (RefPSL)", "urllib.parse.urlsplit hostname extraction"],
+    "trusted_base": ["pyvc VC generator and z3 / cvc5", "Key theory axioms", "independent reference PSL implementation in bcheck/c08.py (RefPSL)", "urllib.parse.urlsplit hostname extraction"],
 }
